@@ -162,7 +162,10 @@ AddOp == CanAdd /\
     \/ \E o \in PlainUn, a \in Idx : Try(Node(o, <<a>>, "", << >>, << >>))
     \/ \E o \in PlainBin, a, b \in Idx : Try(Node(o, <<a, b>>, "", << >>, << >>))
     \/ "MonteCarlo" \in Special /\ \E a \in Idx : Try(Node("MonteCarlo", <<a>>, "", << >>, << >>))
-    \/ "PanelLikelihoodTrajectory" \in Special /\ \E a \in Idx : Try(Node("PanelLikelihoodTrajectory", <<a>>, "", << >>, << >>))
+    \* (a trajectory operator below another one is not a formula of the language: the operator applies to quantities of
+    \*  one observation; the engine has no meaning for it -- such DAGs are not generated)
+    \/ "PanelLikelihoodTrajectory" \in Special /\ \E a \in Idx : ~Contains(nodes, a, "PanelLikelihoodTrajectory")
+                                                               /\ Try(Node("PanelLikelihoodTrajectory", <<a>>, "", << >>, << >>))
     \/ "Integrate" \in Special /\ \E a \in Idx, nm \in RvNames : Try(Node("Integrate", <<a>>, nm, << >>, << >>))
     \/ "bioMultSum" \in Special /\ \E a, b \in Idx : Try(Node("bioMultSum", <<a, b>>, "", << >>, << >>))
     \/ "BelongsTo" \in Special /\ \E a \in Idx : Try(Node("BelongsTo", <<a>>, "", <<1, 3>>, << >>))
